@@ -18,7 +18,7 @@
 // The driver (props/C39.py) only sends sequences that are memory safe on the real code (R/N only on a variable that
 // currently owns a callable).  R/N on never-initialised bits and scope errors are refused ("BAD").
 //
-// stdout: one line per case:  <op result> | <op result> | ... # <callable ledger line>
+// stdout: one line per case:  <op result> | <op result> | ... # <callable ledger line> <corrupt> <oob>
 //   op result = [dispatch] events...   dispatch (only after K/k): I = invokeInline installed, S<K> = invokeSpill<K>, ? = neither
 //   events, in program order:  <w><tag>@<loc>[!]   w in C (value ctor) c (copy ctor) m (move ctor) D (dtor) V (invoked)
 //                              loc = T (elsewhere: a temporary), I<v> (inline buffer of variable v), B (a spill block
@@ -26,6 +26,10 @@
 //                              (or, for B, the block is not a multiple of its size class K)
 //                              PA<K> / PF<K>  a block left / came back to the thread-local cache of SmallBufferAllocator<K>
 //                              MA<n> / MF<n>  ::malloc(n) / ::free of that block (n >= 512 only; via --wrap)
+//                              `^` after a location = the object [addr, addr+sizeof) lies inside a OnceFunction variable
+//                              but not inside its buf_ (it overlaps invoke_ or starts before buf_)
+// after the ledger numbers: corrupt = number of content checks that failed (every byte of a callable is a function of
+// its serial number; checked when it is copied/moved from, invoked and destroyed), oob = number of `^` events.
 #include <algorithm>
 #include <atomic>
 #include <cassert>
@@ -98,11 +102,32 @@ static size_t g_alignOfTag[1 << 12]; // alignment of the callable type carrying 
 
 static dispenso::OnceFunction& F(int i) { return *reinterpret_cast<dispenso::OnceFunction*>(g_store[i]); }
 
+static size_t g_sizeOfTag[1 << 12];  // sizeof of the callable type carrying a tag
+static long g_corrupt = 0, g_oob = 0;
+
+// Every byte after the serial number is a function of (serial, position): a write into the callable's storage by
+// anybody else (e.g. invoke_ stored over the tail of an over-long inline callable) is noticed at the next check.
 template <size_t Size, size_t Align>
 struct Fn {
-  life::S<Size, Align, 0> s;
-  explicit Fn(int tag) : s(tag) {}
+  using Blob = life::S<Size, Align, 0>;
+  Blob s;
+  static unsigned char pat(uintptr_t key, size_t k) { return static_cast<unsigned char>(key * 131u + k * 29u + 7u); }
+  void fill() {
+    uintptr_t key = s.key();
+    for (size_t k = Blob::kIdBytes; k < Size; ++k) s.raw[k] = pat(key, k);
+  }
+  void verify() const {
+    uintptr_t key = s.key();
+    for (size_t k = Blob::kIdBytes; k < Size; ++k) {
+      if (s.raw[k] != pat(key, k)) { ++g_corrupt; return; }
+    }
+  }
+  explicit Fn(int tag) : s(tag) { fill(); }
+  Fn(const Fn& o) : s(o.s) { o.verify(); fill(); }
+  Fn(Fn&& o) noexcept : s(std::move(o.s)) { o.verify(); fill(); }
+  ~Fn() { verify(); }
   void operator()() {
+    verify();
     s.touch();
     Led::note('V', s.key(), this, s.get());
   }
@@ -161,7 +186,10 @@ struct Ops {
   X(32, 32) X(64, 32) X(96, 32) X(128, 32) X(160, 32) X(192, 32) X(224, 32) X(256, 32) X(288, 32) X(384, 32)         \
   X(512, 32) X(544, 32) X(576, 32) X(64, 64) X(128, 64) X(192, 64) X(256, 64) X(320, 64) X(384, 64) X(448, 64)       \
   X(512, 64) X(576, 64) X(128, 128) X(256, 128) X(384, 128) X(512, 128) X(640, 128) X(256, 256) X(512, 256)          \
-  X(768, 256)
+  X(768, 256)                                                                                                        \
+  /* the whole 49..72 band at alignments 1, 2, 4 (sizes that are not multiples of 8 around the inline limit) */      \
+  X(50, 1) X(51, 1) X(52, 1) X(53, 1) X(54, 1) X(58, 1) X(59, 1) X(61, 1) X(62, 1) X(66, 1) X(67, 1) X(68, 1)        \
+  X(69, 1) X(70, 1) X(71, 1) X(50, 2) X(52, 2) X(60, 2) X(68, 2) X(70, 2) X(72, 2) X(72, 4)
 
 #define X(S, A) GridEntry{S, A, &Ops<S, A>::makeR, &Ops<S, A>::makeL, &Ops<S, A>::dispatch},
 static const GridEntry kGrid[] = {GRID};
@@ -208,6 +236,7 @@ static bool apply(char op, int i, int a, int t, std::string& out) {
     case 'K': case 'k':
       if (g_inScope[i] || a < 0 || a >= kGridN || t < 0 || t >= (1 << 12)) { ok = false; break; }
       g_alignOfTag[t] = kGrid[a].align;
+      g_sizeOfTag[t] = kGrid[a].size;
       (op == 'K' ? kGrid[a].makeR : kGrid[a].makeL)(g_store[i], t);
       g_inScope[i] = g_init[i] = g_bits[i] = true;
       {
@@ -239,7 +268,18 @@ static bool apply(char op, int i, int a, int t, std::string& out) {
   s << g_mev[0];
   for (const life::Event& e : Led::take_trace()) {
     size_t al = (e.tag >= 0 && e.tag < (1 << 12)) ? g_alignOfTag[e.tag] : 1;
+    size_t sz = (e.tag >= 0 && e.tag < (1 << 12)) ? g_sizeOfTag[e.tag] : 0;
     s << ' ' << e.what << e.tag << '@' << where(e.addr, al ? al : 1);
+    // an object inside a OnceFunction variable must lie inside its buf_
+    const unsigned char* a0 = static_cast<const unsigned char*>(e.addr);
+    for (int v = 0; v < NV && sz; ++v) {
+      const unsigned char* lo = g_store[v];
+      if (a0 + sz > lo && a0 < lo + sizeof(dispenso::OnceFunction)) {
+        const unsigned char* b0 = reinterpret_cast<const unsigned char*>(F(v).buf_);
+        if (a0 < b0 || a0 + sz > b0 + sizeof(F(v).buf_)) { s << '^'; ++g_oob; }
+        break;
+      }
+    }
   }
   for (int c = 0; c < 7; ++c) {
     for (long n = before[c]; n < after[c]; ++n) s << " PF" << kClasses[c];
@@ -273,13 +313,14 @@ int main() {
     }
     Led::reset();
     Led::set_trace(true);
+    g_corrupt = g_oob = 0;
     for (int i = 0; i < NV; ++i) g_inScope[i] = g_init[i] = g_bits[i] = false;
     std::istringstream in(line);
     std::string tok, res;
     bool bad = false, silent = false, first = true, printed = false;
     while (in >> tok) {
       if (tok == ";") {
-        std::printf("%s # %s\n", res.c_str(), Led::line().c_str());
+        std::printf("%s # %s %ld %ld\n", res.c_str(), Led::line().c_str(), g_corrupt, g_oob);
         printed = silent = true;
         continue;
       }
@@ -294,7 +335,7 @@ int main() {
       }
     }
     if (bad) { std::printf("BAD %s\n", tok.c_str()); }
-    else if (!printed) std::printf("%s # %s\n", res.c_str(), Led::line().c_str());
+    else if (!printed) std::printf("%s # %s %ld %ld\n", res.c_str(), Led::line().c_str(), g_corrupt, g_oob);
     std::fflush(stdout);
   }
   return 0;
